@@ -215,12 +215,15 @@ func strLit(s string) string {
 var identLike = func(s string) bool { return oper.IsIdentOp(s) }
 var kwOps = map[string]bool{"and": true, "or": true, "not": true}
 
-func atomicNode(j J) bool {
+func atomicNode(j J, style int) bool {
 	switch j["k"] {
 	case "num", "str", "bool", "time", "list", "map", "obj", "id":
 		return true
 	case "call":
 		f := obj(j["f"])
+		if f["k"] == "id" && str(f["n"]) == "if" && style&1 != 0 && len(arr(j["args"])) == 3 {
+			return false // rendered as c ? a : b
+		}
 		return f["k"] == "id" && identLike(str(f["n"])) && !kwOps[str(f["n"])]
 	case "sub", "mem":
 		return true
@@ -230,7 +233,7 @@ func atomicNode(j J) bool {
 
 func paren(j J, style int) string {
 	s := renderSrc(j, style)
-	if atomicNode(j) {
+	if atomicNode(j, style) {
 		return s
 	}
 	return "(" + s + ")"
